@@ -1,6 +1,6 @@
 """U23 — tonic/src/body.rs: the type-erased body.  An empty body has no frames and is at its end; a wrapping body forwards
-poll_frame / is_end_stream to the body it wraps.  (Body::new - the `dyn Any` downcasts that avoid double boxing - is not under
-contract.)  Carries the body plumbing of C02 / C03: what the erased body yields is what the wrapped body yields."""
+poll_frame / is_end_stream to the body it wraps.  Body::new collapses a body that is already at its end into the empty body, hands a tonic Body or an
+already boxed body through unchanged (the `dyn Any` downcasts) and boxes anything else.  Carries the body plumbing of C02 / C03: what the erased body yields is what the wrapped body yields."""
 from vxlib import Unit, Clause
 
 B = 'tonic/src/body.rs'
@@ -25,6 +25,31 @@ impl<'a> PinMutBox<'a> {
     #[verifier::external_body]
     pub fn poll_frame(self, cx: &mut Context) -> (r: Poll<Option<Result<http_body::Frame<Bytes>, Status>>>) ensures old(self.p).polled(r, final(self.p)) { unimplemented!() }
 }
+// the body handed to Body::new (any http_body::Body<Data = Bytes>): whether it is at its end, whether it already is a tonic Body /
+// a boxed body (what the `dyn Any` downcasts find out, A-core-50), and its boxed form (A-httpbody-09: map_err + boxed_unsync box
+// the body; the frames are those of the body, errors go through Status::map_error)
+pub trait SrcBody: Sized {
+    spec fn at_end(&self) -> bool;
+    spec fn as_tonic(&self) -> Option<Body>;
+    spec fn as_boxed(&self) -> Option<BoxBody>;
+    spec fn boxed(&self) -> BoxBody;
+    fn is_end_stream(&self) -> (r: bool) ensures r == self.at_end();
+}
+// A-core-50: <dyn Any>::downcast_mut::<Option<T>>(&mut Some(body)) succeeds exactly when the body IS a T
+#[verifier::external_body]
+pub fn verif_downcast_tonic<B: SrcBody>(b: &mut Option<B>) -> (r: Option<&mut Option<Body>>)
+    requires *old(b) is Some
+    ensures r is Some <==> old(b)->Some_0.as_tonic() is Some, r matches Some(o) ==> *o == old(b)->Some_0.as_tonic(), r is None ==> *final(b) == *old(b)
+{ unimplemented!() }
+// A-core-50 (as above, for an already boxed body)
+#[verifier::external_body]
+pub fn verif_downcast_boxed<B: SrcBody>(b: &mut Option<B>) -> (r: Option<&mut Option<BoxBody>>)
+    requires *old(b) is Some
+    ensures r is Some <==> old(b)->Some_0.as_boxed() is Some, r matches Some(o) ==> *o == old(b)->Some_0.as_boxed(), r is None ==> *final(b) == *old(b)
+{ unimplemented!() }
+// A-httpbody-09 (see above)
+#[verifier::external_body]
+pub fn verif_erase<B: SrcBody>(b: B) -> (r: BoxBody) ensures r == b.boxed() { unimplemented!() }
 '''
 
 
@@ -37,6 +62,19 @@ def build():
     u._emit('impl Body {'); u._open_header = 'impl Body {'
     u.fn(B, 'from_kind', within='impl Body', ensures=[Clause('B0_a_body_of_this_kind', 'r.kind == kind')])
     u.fn(B, 'empty', within='impl Body', ensures=[Clause('B1_the_empty_body', 'r.kind is Empty')])
+    u.fn(B, 'new', within='impl Body', display='Body::new',
+         sig_edits=[lambda t: t.sub_code('R12', r"B: http_body::Body<Data = bytes::Bytes> \+ Send \+ 'static,\s*B::Error: Into<crate::BoxError>,", 'B: SrcBody,')],
+         body_edits=[lambda t: t.sub_code('R17', r'<dyn std::any::Any>::downcast_mut::<Option<Body>>\(&mut body\)', 'verif_downcast_tonic(&mut body)'),
+                     lambda t: t.sub_code('R17', r'<dyn std::any::Any>::downcast_mut::<Option<BoxBody>>\(&mut body\)', 'verif_downcast_boxed(&mut body)'),
+                     lambda t: t.sub_code('R17', r'body\s*\.unwrap\(\)\s*\.map_err\(crate::Status::map_error\)\s*\.boxed_unsync\(\)', 'verif_erase(body.unwrap())')],
+         ensures=[Clause('B5_a_body_already_at_its_end_becomes_the_empty_body', 'body.at_end() ==> r.kind is Empty'),
+                  Clause('B6_otherwise_the_erased_body_is_the_given_body_boxed_at_most_once',
+                         '''!body.at_end() ==> (match (body.as_tonic(), body.as_boxed()) {
+                    (Some(t), _) => r == t,
+                    (None, Some(bx)) => r.kind == Kind::Wrap(bx),
+                    (None, None) => r.kind == Kind::Wrap(body.boxed()),
+                })''')])
+    u.fn(B, 'default', within='impl Default for Body', display='Body::default', ensures=[Clause('B7_the_default_body_is_empty', 'r.kind is Empty')])
     u.close('}')
     hdr = 'impl http_body::Body for Body'
     se = [lambda t: t.sub_code('R9', r'Self::Data', 'Bytes'), lambda t: t.sub_code('R9', r'Self::Error', 'Status'),
